@@ -3,6 +3,7 @@ import logging
 from authlib.jose import jwt
 from authlib.jose.errors import JoseError
 
+from ..base import invalid_error_characters
 from ..rfc6749 import InvalidClientError
 
 ASSERTION_TYPE = "urn:ietf:params:oauth:client-assertion-type:jwt-bearer"
@@ -68,9 +69,15 @@ class JWTBearerClientAssertion:
                 assertion, resolve_key, claims_options=self.create_claims_options()
             )
             claims.validate(leeway=self.leeway)
-        except JoseError as e:
+        except (JoseError, ValueError) as e:
+            # ValueError: the key does not fit the algorithm of the assertion,
+            # or no key has the "kid" of the assertion
             log.debug("Assertion Error: %r", e)
-            raise InvalidClientError(description=e.description) from e
+            description = getattr(e, "description", None)
+            if description and invalid_error_characters(description):
+                # descriptions of JOSE errors may quote parts of the assertion
+                description = None
+            raise InvalidClientError(description=description) from e
         return claims
 
     def authenticate_client(self, client):
@@ -86,7 +93,7 @@ class JWTBearerClientAssertion:
             # For client authentication, the subject MUST be the
             # "client_id" of the OAuth client
             client_id = payload.get("sub")
-            client = query_client(client_id)
+            client = query_client(client_id) if isinstance(client_id, str) else None
             if not client:
                 raise InvalidClientError(
                     description="The client does not exist on this server."
